@@ -842,11 +842,18 @@ async fn exec_action(sim: &mut Sim, a: Action) {
         },
         Action::ClientClose(c) => {
             let mut conns = sh.conns.borrow_mut();
-            // orderly close (FIN), so that the queued connection keeps its identity when accepted
-            if let Some(ClientStream::Tcp(s)) = &conns[c].stream {
-                let _ = socket2::SockRef::from(s).set_linger(None);
+            // orderly half-close (FIN), so that the queued connection keeps its identity when it
+            // is accepted; the socket itself is kept until the end of the run and then closed
+            // abortively like every other client socket (no TIME_WAIT entry is left behind)
+            match &conns[c].stream {
+                Some(ClientStream::Tcp(s)) => {
+                    let _ = s.shutdown(std::net::Shutdown::Write);
+                }
+                Some(ClientStream::Uds(s)) => {
+                    let _ = s.shutdown(std::net::Shutdown::Write);
+                }
+                None => {}
             }
-            conns[c].stream = None;
             conns[c].client_closed = true;
             drop(conns);
             sh.ctx(|ctx| ev!(ctx, "client closes c{c}"));
@@ -986,8 +993,8 @@ impl Engine for SrvSim {
     }
     fn budget(_prop: &str, tier: Tier) -> (u64, u64) {
         match tier {
-            Tier::Quick => (40_000, 60),
-            Tier::Thorough => (2_000_000, 600),
+            Tier::Quick => (150_000, 60),
+            Tier::Thorough => (6_000_000, 600),
         }
     }
     fn gen_config(prop: &str, tier: Tier, rng: &mut Rng) -> Config {
